@@ -52,32 +52,19 @@ def run(ctx):
         ctx.missing("anchors", "unify_sfunction")
         return
     ctx.fn(US)
-    # name -> evaluator (and R3)
-    name2eval = {}
-    ups = Walker(US, max_visits=2).paths()
-    ctx.stats["paths_walked"] += len(ups)
-    oth = ("param", 3, US.locals[3].get("name") or "")
-    ssp = ("param", 4, US.locals[4].get("name") or "")
-    for p in ups:
-        lit = None
-        for c, v, bb in p.decisions:
-            if c[0] == "call" and c[1].endswith("::eq") and v is True:
-                for a in c[2]:
-                    if a[0] == "const" and a[2].startswith('"'):
-                        lit = a[2].strip('"')
-        if lit is None or p.end != "return":
-            continue
-        r = p.ret
-        ok = r[0] == "call" and r[1].endswith("Unifiable::unify") and strip(r[2][1]) == oth and strip(r[2][2]) == ssp
-        ev = strip(r[2][0]) if ok else None
-        ok = ok and ev[0] == "call" and strip(ev[2][0])[0] == "param" and strip(ev[2][0])[1] == 2 and strip(ev[2][1]) == ssp
-        if ok:
-            name2eval[lit] = ev[1]
-        if lit in WANT:
-            ctx.ob("R3", "cell(%s)" % lit, ok, ctx.where(US), "returns %s; required evaluate(terms, ss).unify(other, ss)" % show(r)[:160])
+    # name -> evaluator (and R3), robust to the dispatch living in a helper
+    import funcs
+    fa = funcs.analyse(prog, ctx)
+    name2eval = dict(fa["name2eval"])
+    ctx.fn(fa["dispatcher"])
+    seen = {}
+    for label, ok, why in fa["returns"]:
+        k = seen.get(label, 0)
+        seen[label] = k + 1
+        ctx.ob("R3", "cell(%s)%s" % (label, "" if k == 0 else "#%d" % k), ok, ctx.where(US), why)
     for nm in WANT:
         if nm not in name2eval:
-            ctx.missing("R2", "unify_sfunction cell `%s`" % nm)
+            ctx.missing("R2", "dispatch of function name `%s`" % nm)
     # ---- R1 ----------------------------------------------------------------
     n_branches = 0
     for nm, evp in sorted(name2eval.items()):
